@@ -14,33 +14,40 @@ open TH.Lts.Queue
     handed out so far followed by the values still queued are exactly the values pushed, as
     sequences: nothing is lost, nothing is duplicated, and the queue is globally FIFO. -/
 theorem queue_exactly_once (s : State) (h : Reachable s) :
-    s.taken ++ elems s.queue = s.pushed := by
-  sorry
+    s.taken ++ elems s.queue = s.pushed :=
+  exactly_once_inv s h
 
 /-- every completed call that returned a value returned a pushed value, and the log of returned
     values is exactly `taken`. -/
 theorem log_values_are_taken (s : State) (h : Reachable s) :
-    (s.log.filterMap (fun r => match r.res with | .value v => some v | _ => none)) = s.taken := by
-  sorry
+    (s.log.filterMap (fun r => match r.res with | .value v => some v | _ => none)) = s.taken :=
+  log_values_inv s h
 
 /-- No lost wake-up: in every reachable state, if some receiver is blocked then the number of
     queued items does not exceed the number of receivers that are already runnable (woken up or
     about to look at the queue) — each queued item has a receiver on its way to it. -/
 theorem no_lost_wakeup (s : State) (h : Reachable s) :
-    0 < countP s isWaiting → s.queue.length ≤ countP s isRunnable := by
-  sorry
+    0 < countP s isWaiting → s.queue.length ≤ countP s isRunnable :=
+  no_lost_wakeup_inv s h
 
 /-- Corollary, the statement of the property: at quiescence (no receiver runnable) a receiver that
     remains blocked means the queue is empty — no request stays queued while a receiver sleeps. -/
 theorem quiescent_blocked_implies_empty (s : State) (h : Reachable s)
     (hq : countP s isRunnable = 0) (hb : 0 < countP s isWaiting) : s.queue = [] := by
-  sorry
+  have := no_lost_wakeup s h hb
+  rw [hq] at this
+  exact List.length_eq_zero_iff.mp (Nat.le_zero.mp this)
 
 /-- a runnable receiver can always take its step (the system is never stuck while somebody is
     runnable): `look` is enabled for every ready / woken thread. -/
 theorem look_enabled (s : State) (t : Nat) (hr : isRunnable (phaseOf s t) = true) :
     (step s (.look t)).isSome = true := by
-  sorry
+  simp only [step]
+  cases hp : phaseOf s t with
+  | idle => rw [hp] at hr; cases hr
+  | waiting => rw [hp] at hr; cases hr
+  | ready => rfl
+  | woken => rfl
 
 /-- non-vacuity, and the scenario of the repaired defect: a timed receiver notified in the last
     millisecond of its timeout now takes the element. -/
